@@ -3,7 +3,10 @@
 //!
 //! goaway  A<id>,S<n>,P,C<id>,G<pid>,...   server: Arrive (new peer bidi stream + HEADERS + FIN), shutdown(n),
 //!                                         one poll of accept(), drop the resolver of request id, peer GOAWAY
-//! cgoaway g<id>,D,R,...                   client: GOAWAY(id) arrives, one poll of the driver, send_request
+//! cgoaway g<id>,D,R,z,h<n>,...            client: GOAWAY(id) arrives, one poll of the driver, one poll of send_request (a new
+//!                                         call or the one parked for stream credit), stream credit := 0, grant n streams
+//! (experiment only, not generated, no model: `b` closes flow control on our control stream, `W` reopens it; a
+//!  shutdown()/accept() polled Pending on its GOAWAY write is then DROPPED by this harness)
 //!
 //! Output: `ok <group> <group> ...`, one group per op (outputs joined by ',', `.` = none):
 //!   w<g> GOAWAY(g) written on our control stream; +<id> accept() returned request id;
@@ -213,7 +216,7 @@ fn server_case(fam: &str, ops: &str) -> String {
                 match poll_once(conn.shutdown(n)) {
                     Poll::Ready(Ok(())) => {}
                     Poll::Ready(Err(e)) => answer = Some(format!("shutdown-err:{}", code_of(&conn_err(&e)))),
-                    Poll::Pending => answer = Some("shutdown-pending".into()),
+                    Poll::Pending => answer = Some("spend".into()),
                 }
             }
             b'P' => match poll_once(conn.accept()) {
@@ -232,6 +235,13 @@ fn server_case(fam: &str, ops: &str) -> String {
             b'C' => {
                 let id: u64 = arg.parse().unwrap();
                 held.remove(&id);
+            }
+            b'b' => {
+                // flow control closes on our control stream: writes stay pending
+                w.lock().unwrap().streams.get_mut(&ctl).unwrap().tx_budget = Some(0);
+            }
+            b'W' => {
+                w.lock().unwrap().grant_write(ctl, 1 << 40);
             }
             b'G' => {
                 let id: u64 = arg.parse().unwrap();
